@@ -2115,12 +2115,20 @@ double BW_MidiSequencer::Tick(double s, double granularity)
     m_currentPosition.absTimePosition += s;
 
     int antiFreezeCounter = 10000; // Limit 10000 loops to avoid freezing
+    double lastWait = m_currentPosition.wait;
     while((m_currentPosition.wait <= granularity * 0.5) && (antiFreezeCounter > 0))
     {
         if(!processEvents())
             break;
-        if(m_currentPosition.wait <= 0.0)
+        // Count the rows that did not move the time forward only: a caller that is merely late
+        // (one long tick over a dense song) must be allowed to catch up over any number of rows
+        if(m_currentPosition.wait <= lastWait)
             antiFreezeCounter--;
+        else
+        {
+            lastWait = m_currentPosition.wait;
+            antiFreezeCounter = 10000;
+        }
     }
 
     if(antiFreezeCounter <= 0)
